@@ -145,9 +145,7 @@ func init() {
 		x := app.Args[0]
 		return []*Term{ULt(app, BVi(65535, 64)), Implies(ULt(x, BVi(65535, 64)), Eq(app, x)),
 			// one period above the identity range (x mod 65535 for 65535 <= x < 131070)
-			Implies(And(ULe(BVi(65535, 64), x), ULt(x, BVi(131070, 64))), Eq(app, Sub(x, BVi(65535, 64)))),
-			// quotient: x = oc16(x) + 65535 * odiv(x) (x mod / div 65535), for x below 2^48
-			Implies(ULe(x, BVi(1<<48, 64)), And(Eq(x, Add(app, Mul(BVi(65535, 64), App("spec|odiv", BVSort(64), x)))), ULe(App("spec|odiv", BVSort(64), x), BVi(1<<33, 64))))}
+			Implies(And(ULe(BVi(65535, 64), x), ULt(x, BVi(131070, 64))), Eq(app, Sub(x, BVi(65535, 64))))}
 	}
 	specAxioms["spec|wsum"] = func(app *Term) []*Term {
 		row, lo, hi := app.Args[0], app.Args[1], app.Args[2]
